@@ -66,7 +66,7 @@ def plan_c01(tier, seed):
     if tier == "quick":
         runs += grid(["map"], ["u8"], ["U3"], ["hi"], "canonical", ["exact"], threads=8, retain_all=False)
     if tier == "thorough":
-        runs += grid(["map"], ["u8", "u32"], ["U3"], ["hi"], "structural", ["exact"], threads=8, retain_all=False)
+        runs += grid(["map"], ["u8"], ["U3"], ["hi"], "structural", ["exact"], threads=16, retain_all=False)
         runs += grid(["map", "set"], ALL, ["comb5"], ["hi"], "structural", ["exact"], ["lookups"], retain_all=False)
         runs += grid(["map"], ["u8", "Ipv6Net"], ["U3"], ["hi"], "canonical", ["exact"], threads=4)
     return {"runs": runs}
@@ -91,7 +91,7 @@ def e1_plan(obs_map, obs_set, alpha="structural", quick_types=ALL, canonical_obs
         if "find" not in obs_map and tier == "quick":
             runs += grid(["map"], ["u8"], ["U3"], ["hi"], "canonical", canonical_obs if canonical_obs is not None else obs_map, threads=8, retain_all=False)
         if tier == "thorough":
-            runs += grid(["map"], ["u8", "u32"], ["U3"], ["hi"], "structural", obs_map, threads=8, retain_all=False)
+            runs += grid(["map"], ["u8"], ["U3"], ["hi"], "structural", obs_map, threads=16, retain_all=False)
             runs += grid(list(kinds), REP7, ["comb5"], ["hi"], "structural", obs_map, obs_set, retain_all=False)
             if canonical_obs is not None:
                 runs += grid(["map"], ["u8", "Ipv6Net"], ["U3"], ["hi"], "canonical", canonical_obs, threads=4)
@@ -269,7 +269,7 @@ def plan_c20(tier, seed):
                     "handle-level programs (<= 2 non-consuming calls then one consuming call; <= 3 in the thorough tier) on entries and mutable views; a panic injected at every "
                     "invocation index of every callback for every keep-subset; iterator step caps and a pending-call watchdog for divergence; distinct = shapes + evaluated pairs"}
     if tier == "thorough":
-        runs += grid(["map"], ["u8", "u32"], ["U3"], ["hi"], "structural", ["exact", "lpm", "cover"], threads=8, retain_all=False)
+        runs += grid(["map"], ["u8"], ["U3"], ["hi"], "structural", ["exact", "lpm", "cover"], threads=16, retain_all=False)
         runs += grid(["map"], ["u8"], ["U3"], ["hi"], "canonical", ["faults"], threads=8)
         runs += grid(["map", "set"], ALL, ["comb5"], ["hi", "lo"], "structural", ["exact", "iters", "views"], ["lookups", "iters"], retain_all=False)
         runs += [ex("map", t, "U2", e, "structural", ["handles"], threads=4, deep=True) for t in ["u8", "u16", "Ipv4Cidr", "Ipv6Inet"] for e in ["hi", "lo"]]
